@@ -206,6 +206,31 @@ func c16TimeStrings(e *core.Env) int64 {
 		rec(0, length)
 	}
 	e.Count("short_strings_over_the_time_alphabet", n-132000)
+	// look-alikes: one character of a valid literal replaced by a character that is NOT that character but shares its low
+	// byte (U+01xx, U+04xx), is its fullwidth form, or is the digit of the same value in another script - no time literal
+	lookalikes := 0
+	for _, lit := range []string{"1:30", "11:30", "12:34", "<9:00pm", "0:05>", "23:59", "10:15am", "<23:00", "24:00", "8:00", "12:00am>", "7:07pm"} {
+		rs := []rune(lit)
+		for pos, c := range rs {
+			subs := []rune{0x0100 + c, 0x0400 + c, 0x1E00 + c, 0xFF00 + c - 0x20}
+			if c >= '0' && c <= '9' {
+				subs = append(subs, 0x0660+c-'0', 0x0966+c-'0', 0x1D7CE+c-'0')
+			}
+			for _, sub := range subs {
+				m := append(append(append([]rune{}, rs[:pos]...), sub), rs[pos+1:]...)
+				ms := string(m)
+				n++
+				lookalikes++
+				var err error
+				if p := core.Guard(func() { _, err = klog.NewTimeFromString(ms) }); p != nil {
+					e.Violation("time-parse-panic: "+p.Site(), fmt.Sprintf("time %q: panic %s", ms, p.Value), ms)
+				} else if err == nil {
+					e.Violation("time-acceptance", fmt.Sprintf("%q (the literal %q with %q in place of %q) is accepted as a time", ms, lit, string(sub), string(c)), ms)
+				}
+			}
+		}
+	}
+	e.Count("lookalike_time_strings", int64(lookalikes))
 	// equality: literals denote the same value exactly when the offsets agree
 	offs := make([]int, 0, len(byValue))
 	for o := range byValue {
